@@ -24,6 +24,13 @@ func verifDirFromEnv() string {
 	return "/verif"
 }
 
+// FrameGuard: functions that are not about this property but could write the state it is about. Only their frame obligations on
+// the listed state cells are checked under this property (the rest of their contract belongs to the properties they are tagged with).
+type FrameGuard struct {
+	Cells     []string `json:"cells"`
+	Functions []string `json:"functions"`
+}
+
 type PropConfig struct {
 	Functions []string `json:"functions"`
 	Lemmas    []string `json:"lemmas"`
@@ -32,6 +39,7 @@ type PropConfig struct {
 	Assumptions []string `json:"assumptions"`
 	Discipline  bool     `json:"discipline"`
 	EventForwarding bool `json:"event_forwarding"`
+	FrameGuard      *FrameGuard `json:"frame_guard"`
 }
 
 func loadConfig() (map[string]*PropConfig, error) {
